@@ -115,10 +115,29 @@ func RunC14(tier string) int {
 				switch x := r.Intn(10); {
 				case x < 4 && len(markers) > 0: // destroy or re-create a checked condition
 					m := rng.Pick(r, markers)
-					on := env.markerOn(m)
-					env.SetMarker(m, !on)
+					exp := ""
+					for _, t := range env.Spec.Targets {
+						for _, c := range t.Checks {
+							if c.Marker == m {
+								exp = c.Expected
+							}
+						}
+					}
+					on := env.checkHolds(spec.Check{Marker: m, Expected: exp})
+					how := ""
+					if on && exp != "" && r.Chance(2, 3) {
+						// the condition of an expected_output check is destroyed while its marker
+						// stays: the check command prints something else than what is expected
+						bad := rng.Pick(r, []string{exp + "\nDEGRADED: disk lost\n", exp + "\nsecond line\nthird line\n", exp + "\n" + exp + "\n", "first line\n" + exp + "\n",
+							exp + "ay\n", "", "\n" + "not-" + exp + "\n", exp + " " + exp + "\n"})
+						env.SpoilMarker(m, bad)
+						how = fmt.Sprintf(" (marker now prints %q)", bad)
+						run.Count("expected_output_conditions_destroyed_by_other_output", 1)
+					} else {
+						env.SetMarker(m, !on)
+					}
 					name = map[bool]string{true: "check-condition-destroyed", false: "check-condition-restored"}[on]
-					env.Logf("%s: %s", name, m)
+					env.Logf("%s: %s%s", name, m, how)
 				case x < 5 && hasBreaker(env.Spec): // a command that exits 0 but destroys the condition its check asserts
 					var bs []*spec.Target
 					for _, t := range env.Spec.Targets {
